@@ -19,21 +19,23 @@ func init() {
 	Register(&PropDef{
 		ID: "C06", Title: "a rejected message leaves the session as it was",
 		Config: c06Config, Run: c06Run, MaxSteps: 40,
-		Rule: "runs = a conversation pair driven to a PRNG-chosen state (plaintext, each AKE stage, fresh session, after rotations, SMP pending, finished) receives one rejected message X (mutated/forged/replayed data message, unexpected or damaged AKE message, wrong version, foreign/invalid instance tags, garbage, stray fragment), followed by a PRNG-generated continuation of genuine traffic (messages both ways, rotations, SMP, query inside/outside the 60 s window, End); the same continuation is executed in a twin world without X; " +
+		Rule: "runs = a conversation pair driven to a PRNG-chosen state (plaintext, each AKE stage, fresh session, after rotations, SMP pending, finished, refresh exchange in flight, refresh exchange at a PRNG-chosen depth with a retransmission pending after an error report) receives one rejected message X (mutated/forged/replayed data message, unexpected or damaged AKE message, wrong version, foreign/invalid instance tags, garbage, stray fragment), followed by a PRNG-generated continuation of genuine traffic (messages both ways, rotations, SMP, query inside/outside the 60 s window, End); the same continuation is executed in a twin world without X; " +
 			"non-trivial = X was rejected and the continuation made at least 6 API calls; distinct = distinct (state, X class, continuation) signatures",
 		Assume: []string{"the optional OTR error reply to X is not delivered to the peer (the statement excludes it)",
 			"the victim's randomness source is rewound after X, so any byte difference in the continuation is caused by X; only behavioural differences are reported"},
 	})
 }
 
-var c06Stages = []string{"plaintext", "ake1", "ake2", "ake3", "fresh", "rotated", "smp-pending", "finished", "ake-refresh"}
+var c06Stages = []string{"plaintext", "ake1", "ake2", "ake3", "fresh", "rotated", "smp-pending", "finished", "ake-refresh", "error-refresh"}
 
 func c06Config(rc *RunCtx) {
 	r := rc.Rng
 	rc.Cfg["version"] = []int{2, 3, 3, 23}[r.Intn(4)]
 	rc.Cfg["stage"] = r.Intn(len(c06Stages))
 	rc.Cfg["victim"] = r.Intn(2)
-	rc.Cfg["starter"] = r.Intn(2) // who sends the query: the victim is then responder (0) or initiator (1) of the exchange
+	rc.Cfg["starter"] = r.Intn(2)   // who sends the query: the victim is then responder (0) or initiator (1) of the exchange
+	rc.Cfg["depth"] = 1 + r.Intn(4) // how many messages of a refresh exchange are delivered before X (query = 1)
+	rc.Cfg["rstarter"] = r.Intn(2)  // who sends the query of the refresh exchange (roles independent of the first exchange)
 	pol := polFor(rc.Cfg["version"])
 	rc.Parties = []PartyCfg{
 		{KeyIdx: 0, Pol: pol, Peer: 1, ErrHandler: r.Bool()},
@@ -72,7 +74,8 @@ func obsLine(w *World, r *CallResult) string {
 	ssid, fp := "-", "-"
 	if r.Post.Enc {
 		// what a session reports about itself; outside a session the getters have no meaning
-		ssid, fp = fmt.Sprintf("%x", r.Post.SSID), r.Post.FP
+		// (including which half of the session id it tells the user to read out)
+		ssid, fp = fmt.Sprintf("%x/%d", r.Post.SSID, r.Post.HL), r.Post.FP
 	}
 	h := sha256.New()
 	for _, o := range r.Out {
@@ -132,12 +135,28 @@ func c06Prefix(rc *RunCtx, cw *c06World) {
 		r := p.End()
 		w.Enqueue(p, r)
 		w.Drain(1000)
-	case "ake-refresh":
-		w.Tick(tickDur[3])
+	case "ake-refresh", "error-refresh":
 		p := w.P[1-v]
+		depth := 2 // the query and the DH-Commit only
+		if c06Stages[stage] == "error-refresh" {
+			// the victim has sent a text, the peer reported it unreadable: a retransmission is
+			// pending for the moment the refresh exchange completes
+			r := w.P[v].Send(w.GenText(w.P[v], 2, 0))
+			w.Enqueue(w.P[v], r)
+			w.Drain(1000)
+			w.P[v].Receive([]byte("?OTR Error: could not read that"))
+			w.Drain(1000)
+		}
+		if _, has := rc.Cfg["rstarter"]; has {
+			p = w.P[rc.Cfg["rstarter"]%2]
+			depth = rc.Cfg["depth"]
+			if depth == 0 {
+				depth = 2
+			}
+		}
+		w.Tick(tickDur[3])
 		w.Put(p.Idx, p.Cfg.Peer, p.Query(), true, -1, -1, "query")
-		// deliver the query and the DH-Commit only
-		for k := 0; k < 2; k++ {
+		for k := 0; k < depth; k++ {
 			for _, l := range [][2]int{{0, 1}, {1, 0}} {
 				if w.InFlight(l[0], l[1]) > 0 {
 					for w.InFlight(l[0], l[1]) > 0 {
@@ -403,6 +422,7 @@ func c06Run(rc *RunCtx) *Violation {
 			savedP, savedReads, savedDraws := *p.Rand.p, p.Rand.reads, len(p.Rand.Draws)
 			c1.o.Off[0], c1.o.Off[1] = true, true
 			encBefore := p.Conv.IsEncrypted()
+			before := p.post()
 			w.Logf("X class=%s to %s: %s", cls, p.Name, short(msg))
 			r := p.Receive(msg) // outputs (an optional error reply) are not delivered
 			rejected = r.Plain == nil && r.Panic == "" && len(actedEvents(r)) == 0 && r.Post.Enc == p.Conv.IsEncrypted() && encBefore == r.Post.Enc
@@ -413,6 +433,11 @@ func c06Run(rc *RunCtx) *Violation {
 			}
 			*p.Rand.p, p.Rand.reads, p.Rand.Draws = savedP, savedReads, p.Rand.Draws[:savedDraws]
 			c1.from = len(c1.obs)
+			if rejected && before.Enc && (r.Post.SSID != before.SSID || r.Post.HL != before.HL || r.Post.FP != before.FP) {
+				// what the session tells the user about itself, sampled right before and right after X
+				return rc.Viol("twin.behaviour", fmt.Sprintf("the rejected message X (%s, delivered in state %s) changed what the running session reports about itself: session id %x/half %d/peer %.8s before, %x/half %d/peer %.8s after",
+					cls, xState, before.SSID, before.HL, before.FP, r.Post.SSID, r.Post.HL, r.Post.FP), map[string]string{"x": strings.SplitN(cls, ":", 2)[0], "diff": "reported-state", "uncommitted": "false"})
+			}
 			w.Fault("x:" + strings.SplitN(cls, ":", 2)[0])
 			if !rejected {
 				rc.Probe("x_not_rejected")
